@@ -180,7 +180,9 @@ func c10RuleLoop(c *Ctx, r *Result, fn *ssa.Function, fAction, fFail *types.Var)
 		return
 	}
 	pos := c.Pos(c.InstrPos(actionCall))
-	sorts := callSites(fn, func(name string, _ ssa.CallInstruction) bool { return strings.HasSuffix(name, "engine.SortRuleSlice") || name == "sort.Sort" || name == "sort.Stable" })
+	sorts := callSites(fn, func(name string, _ ssa.CallInstruction) bool {
+		return strings.HasSuffix(name, "engine.SortRuleSlice") || name == "sort.Sort" || name == "sort.Stable"
+	})
 	ok := false
 	why := "no sort call"
 	for _, s := range sorts {
